@@ -71,14 +71,46 @@ def run(case):
     from pymatgen.core import PeriodicSite
 
     M = np.array(case['lattice']['matrix'], float)
+    Minv = np.linalg.inv(M)
     sg, ops = ops_of(case['group'])
     lat = cases.lattice(case['lattice'])
     sites = [PeriodicSite('Li', np.array(s, float), lat, label=('Li' if case.get('same_label') else f'S{i}')) for i, s in enumerate(case['sites'])]
     an = ShapeAnalyzer(sites=sites, lattice=lat, spacegroup=sg)
+    site_fracs = [np.array(s, float) for s in case['sites']]
+    labels = [system_of(case['group'])]
+    sh = case.get('shift')
+    if sh:
+        # the analyser with its sites moved by given vectors (Cartesian or fractional; None = leave this site): the property is about whatever sites it holds
+        vecs = [None if v is None else list(v) for v in sh['vectors'][:len(sites)]] + [None] * max(0, len(sites) - len(sh['vectors']))
+        an = gcall(an.shift_sites, vecs, coords_are_cartesian=sh['cartesian'])
+        site_fracs = [f if v is None else (f + (np.array(v, float) @ Minv if sh['cartesian'] else np.array(v, float))) for f, v in zip(site_fracs, vecs)]
+        got_f = [np.array(x.frac_coords, float) for x in an.sites]
+        if len(got_f) != len(site_fracs) or any(oracle.circ_diff(g, w).max() > 1e-9 for g, w in zip(got_f, site_fracs)):
+            raise Violation('shifted-sites', f'{[g.tolist() for g in got_f]} vs {[w.tolist() for w in site_fracs]}')
+        labels.append('shifted-sites')
+    shapes, nontrivial, total, wants = analyse(case, an, site_fracs, ops, M, labels)
+    if case.get('optimize') and all(len(w) for w in wants):
+        # sites moved to the centroid of their own cloud (optimize_sites), then analysed again
+        an2 = gcall(an.optimize_sites, shapes)
+        site_fracs2 = [f + np.mean(w, axis=0) @ Minv for f, w in zip(site_fracs, wants)]
+        got_f = [np.array(x.frac_coords, float) for x in an2.sites]
+        if len(got_f) != len(site_fracs2) or any(oracle.circ_diff(g, w).max() > 1e-6 for g, w in zip(got_f, site_fracs2)):
+            raise Violation('optimised-sites-are-site-plus-centroid', f'{[g.tolist() for g in got_f]} vs {[w.tolist() for w in site_fracs2]}')
+        # (the analysis of the moved sites uses the analyser's own site coordinates, so a last-bit difference of the centroid cannot flip a point)
+        _, nt2, tot2, _ = analyse(case, an2, got_f, ops, M, [], guard=1e-7)
+        nontrivial |= nt2
+        labels.append('optimised-sites')
+    if total:
+        labels.append('has-points')
+    if case['lattice']['orient'] == 'rot':
+        labels.append('rotated-cell')
+    return {'nontrivial': nontrivial and total > 0, 'labels': labels}
+
+
+def analyse(case, an, site_fracs, ops, M, labels, guard=None):
     radius = case['radius']
     positions = np.array(case['positions'], float)
     sc = case.get('supercell')
-    labels = [system_of(case['group'])]
     if sc:
         # the trajectory lives in a supercell: unit-cell position p + integer cell offset, in supercell fractional coordinates
         offs = np.array(case['cell_offsets'], float)
@@ -123,14 +155,22 @@ def run(case):
         shapes = gcall(an.analyze_positions, pin, radius=radius)
         if not np.array_equal(pin, positions):
             raise Violation('input-positions-unchanged', 'analyze_positions modified the caller\'s position array')
-    if len(shapes) != len(sites):
+    if len(shapes) != len(site_fracs):
         raise Violation('one-shape-per-site', f'{len(shapes)}')
     nontrivial = False
     total = 0
-    for site, shape in zip(case['sites'], shapes):
+    wants = []
+    for site, shape in zip(site_fracs, shapes):
+        site = [float(x) for x in site]
+        if guard is not None:
+            lo, _ = expected_points(np.array(site, float), positions % 1.0, ops, M, radius - guard)
+            hi, _ = expected_points(np.array(site, float), positions % 1.0, ops, M, radius + guard)
+            if lo is None or hi is None or len(lo) != len(hi):
+                raise Skip()  # a pair within the guard band of the radius
         want, nt = expected_points(np.array(site, float), positions % 1.0, ops, M, radius)
         if want is None:
             raise Skip()
+        wants.append(want)
         nontrivial |= nt
         got = np.asarray(shape.coords, float).reshape(-1, 3)
         total += len(want)
@@ -150,13 +190,11 @@ def run(case):
                     raise Violation('point-is-inverse-operation-image', f'space group {case["group"]}: expected point {want[k].tolist()} (image under the inverse operation) has no counterpart among the collected points (nearest is {d[k]:.3e} A away; site {site})')
             if np.abs(np.sort(shape.distances()) - np.sort(np.linalg.norm(want, axis=1))).max() > 1e-6:
                 raise Violation('distance-to-centre-equals-source-distance', '')
+            if np.abs(np.asarray(shape.centroid(), float) - want.mean(axis=0)).max() > 1e-6 or np.abs(np.stack([shape.x, shape.y, shape.z], axis=1) - got).max() > 0:
+                raise Violation('shape-centroid-and-components', '')
         if shape.radius != radius:
             raise Violation('shape-radius', '')
-    if total:
-        labels.append('has-points')
-    if case['lattice']['orient'] == 'rot':
-        labels.append('rotated-cell')
-    return {'nontrivial': nontrivial and total > 0, 'labels': labels}
+    return shapes, nontrivial, total, wants
 
 
 @st.composite
@@ -184,6 +222,11 @@ def shape_cases(draw, tier):
     for _ in range(draw(st.integers(0, 4))):
         positions.append([draw(st.floats(0, 1, exclude_max=True)) for _ in range(3)])
     case = {'group': group, 'lattice': lat, 'sites': sites, 'positions': positions, 'radius': radius, 'same_label': draw(st.booleans()), 'touch': draw(st.booleans())}
+    if draw(st.integers(0, 3)) == 0:
+        cart = draw(st.booleans())
+        vec = st.lists(st.floats(-1.5, 1.5) if cart else st.floats(-0.6, 0.6), min_size=3, max_size=3)
+        case['shift'] = {'cartesian': cart, 'vectors': [draw(st.one_of(st.none(), vec)) for _ in range(n_sites)]}
+    case['optimize'] = draw(st.integers(0, 3)) == 0
     mode = draw(st.sampled_from(['positions', 'positions', 'trajectory', 'supercell']))
     if mode == 'trajectory':
         case['via_trajectory'] = True
@@ -261,7 +304,7 @@ def structure_cases(draw, tier):
 
 SUBS = [
     Sub(name='shapes', kind='hyp', run=run, strategy=shape_cases,
-        rule='33 space groups covering all crystal systems and centrings (quick) / all 230 by number (thorough); compatible lattice, optionally rotated; 1-2 sites incl. near-face positions; points planted at 0, 0.3, 0.9, 0.999, 1.001, 1.2 x radius from symmetry images + uniform points; positions given directly, as a trajectory, or as a 1-3^3 supercell trajectory',
+        rule='33 space groups covering all crystal systems and centrings (quick) / all 230 by number (thorough); compatible lattice, optionally rotated; 1-2 sites incl. near-face positions; points planted at 0, 0.3, 0.9, 0.999, 1.001, 1.2 x radius from symmetry images + uniform points; positions given directly, as a trajectory, or as a 1-3^3 supercell trajectory; one case in four moves the sites first (shift_sites, Cartesian or fractional vectors, sites may leave [0,1)), one in four re-analyses after optimize_sites (site + centroid of its cloud); centroid / x / y / z of each shape',
         n={'quick': 100, 'thorough': 2500}, shards={'quick': 12, 'thorough': 16}),
     Sub(name='from-structure', kind='hyp', run=run_from_structure, strategy=structure_cases,
         rule='analyser built with ShapeAnalyzer.from_structure from a full structure (22 groups, general position) whose origin is shifted by a generated vector; expected points from the structure\'s own symmetry operations (SpacegroupAnalyzer, as data) and the brute-force minimum-image oracle',
